@@ -32,7 +32,7 @@ func (e *engine) Info() core.Info {
 	return core.Info{
 		Prop:  "C19",
 		Level: "exploration",
-		Rule:  "a case is one seeded history: <=40 AddLink calls on a small lattice (one run in ten: up to 160 links over up to 81 nodes, so that the node R-tree is multi-level) (end points identical, 1-ulp perturbed (must merge) or >=1 apart; random interior vertices; speeds from a small set or continuous in [0.1,100]; no self-loops or parallel links) interleaved with ShortestRoute queries (query points offset <=0.3 from a network node so that the nearest node is unique), both MinimizeOptions, neighbour order chosen by the tape; non-trivial = at least one answered query between distinct connected nodes for which the fewest-links route is NOT a minimum-cost route (so uniform-cost search would be wrong); distinct = distinct hash of the full operation/result log",
+		Rule:  "a case is one seeded history: <=40 AddLink calls on a small lattice (one run in ten: up to 160 links over up to 81 nodes, so that the node R-tree is multi-level) (end points identical, 1-ulp perturbed (must merge) or >=1 apart; interior vertices per run: mixed, mostly bent, all straight, or slight bends with length/chord just above 1; speeds from a small set or continuous in [0.1,100]; no self-loops or parallel links) interleaved with ShortestRoute queries (query points offset <=0.3 from a network node so that the nearest node is unique), both MinimizeOptions, neighbour order chosen by the tape; non-trivial = at least one answered query between distinct connected nodes for which the fewest-links route is NOT a minimum-cost route (so uniform-cost search would be wrong); distinct = distinct hash of the full operation/result log",
 		Real:  []string{"route (NewNetwork, AddLink, newNode/addNode, ShortestRoute, graph adapter, heuristic)", "index/rtree NearestNeighbor/Insert underneath", "op.PointEquals/Length/Distance", "gonum graph/path.AStar"},
 		Stubs: []string{"Go map iteration order in Network.From/Nodes (replaced by a tape-chosen permutation of the id-sorted slice through the verif hook)"},
 		FaultKinds: []string{
@@ -57,6 +57,8 @@ type link struct {
 }
 
 type run struct {
+	bend       float64
+	intMode    int
 	pairFine   bool // the running pair may be interleaved between any two statements of package route
 	t          *tape.Tape
 	log        *core.Log
@@ -207,6 +209,10 @@ func (r *run) exec() {
 	r.sx, r.sy = scales[t.Choose(len(scales), "cfg-sx")], scales[t.Choose(len(scales), "cfg-sy")]
 	r.permute = t.Choose(3, "cfg-permute") != 0
 	speedMode := t.Choose(3, "cfg-speeds") // 0 all equal, 1 small set, 2 continuous
+	// shapes of the links: 0 mixed (straight or up to two vertices anywhere),
+	// 1 mostly bent, 2 all straight, 3 slightly bent
+	r.intMode = t.Choose(4, "cfg-interior-mode")
+	r.bend = []float64{0.001, 0.01, 0.1, 0.3, 0.6}[t.Choose(5, "cfg-bend")]
 	r.log.Eventf("config minimize=%v grid=%dx%d scale=%gx%g permute=%v speedMode=%d", r.opt, r.g, r.gy, r.sx, r.sy, r.permute, speedMode)
 	if p, v, st := core.Protect(func() { r.net = route.NewNetwork(r.opt) }); p {
 		r.fail("panic", "NewNetwork", "NewNetwork panicked: %v %s", v, core.TrimStack(st, 3))
@@ -308,7 +314,32 @@ func (r *run) addLink(speedMode int) {
 	if nInt == 3 {
 		nInt = 0
 	}
+	switch r.intMode {
+	case 1: // mostly bent links, a straight one now and then
+		if nInt == 0 && !t.OneIn(6, "interior-straight") {
+			nInt = 1 + t.Choose(2, "interior-n")
+		}
+	case 2: // every link straight
+		nInt = 0
+	case 3: // four links in five slightly bent
+		if nInt == 0 && !t.OneIn(5, "interior-straight") {
+			nInt = 1
+		}
+	}
 	for i := 0; i < nInt; i++ {
+		if r.intMode == 3 {
+			// slight bends: a vertex on the chord, displaced sideways by a fraction
+			// of the chord of the run's magnitude (0.1 % to 60 %: length/chord
+			// ratios from just above 1 to 1.5, similar for all links of a network)
+			u := (float64(i) + 0.2 + 0.6*t.Unit("iu")) / float64(nInt)
+			off := r.bend * (0.5 + 0.5*t.Unit("ioffu"))
+			if t.Bool("ioffs") {
+				off = -off
+			}
+			dx, dy := pb.X-pa.X, pb.Y-pa.Y
+			ls = append(ls, geom.Point{X: pa.X + u*dx - off*dy*r.sx/r.sy, Y: pa.Y + u*dy + off*dx*r.sy/r.sx})
+			continue
+		}
 		ls = append(ls, geom.Point{X: r.sx * (1 + t.Unit("ix")*float64(r.g)), Y: r.sy * (1 + t.Unit("iy")*float64(r.gy))})
 	}
 	ls = append(ls, pb)
